@@ -26,7 +26,7 @@ MANIFEST = {
         ref="6/C18",
         note="Trusted: TLC, the Go toolchain and race detector. Exhaustiveness is at the bounded model (<= 5 nodes, <= 2 failures per "
              "behaviour, <= 1 Done); the real runs sample interleavings (goroutine scheduling is real), they do not enumerate them. "
-             "Assumption: a service that signals Done returns without further waiting. Back-off is real time (0.25-0.75 s first, x1.5).",
+             "Assumption: a service that signals Done returns nil by itself after a finite linger (not necessarily at once). Back-off is real time (0.25-0.75 s first, x1.5).",
         technique="TLA+ model checking (TLC, safety + liveness) + trace validation with inferred silent steps + bounded-liveness replay under -race"),
 }
 
